@@ -1,17 +1,23 @@
 """C18 — input parameters always hold a valid value, addressable by their dotted key.
 
-Tie: operation sequences (set_value / add / remove / get on trees of all eight
-parameter classes, through the objects and through DSOLModel.set_parameter /
-get_parameter) are run on the real classes of /repo and on the Gallina model
-Params.Model (step repaired) inside coqc; every return value / exception kind
-and, after every attempt, the dump of the whole tree (extended key, identity,
-value, default of every parameter in iteration order, floats bit exact) must
-agree.  A model-independent oracle evaluates the property's own clauses on the
-live objects after every operation (validity per class as documented,
-unchanged on rejection, read-only / default constancy, get(extended key)
-identity, order by priority then insertion, duplicate refusal, removal,
-model-level round trip); it classifies disagreements and is used to find and
-shrink failing inputs.
+Tie: operation sequences (set_value / add / remove / get / inspect on trees of
+all eight parameter classes, through the objects and through
+DSOLModel.set_parameter / get_parameter; constructions that fail, also for
+wrongly typed arguments) are run on the real classes of /repo and on the
+Gallina model Params.Model (step repaired = the line-by-line transcription of
+get / remove) inside coqc; every return value / exception kind, every
+self-reported declaration and, after every attempt, the dump of the whole tree
+(extended key, identity, value, default of every parameter in iteration
+order, floats exact) must agree.
+
+Oracle (independent of the Coq model): after every operation the property's
+own clauses are evaluated on the live objects - validity per class against
+the arguments the parameter was constructed with and against what the object
+reports, nothing changed by a raising attempt, read-only / default constancy,
+root.get(extended key) identity, order by priority then insertion, duplicate
+refusal, removal, model-level round trip - and the tree is compared with a
+reference tree kept from the implementation's own accept / reject answers.
+It classifies disagreements and is used to find and shrink failing inputs.
 """
 from __future__ import annotations
 
